@@ -15,7 +15,7 @@ STANDING_ASSUMPTIONS = list(TRUSTED_BASE) + [
     "extraction is mechanical (tools/extract, rules R1-R16 logged per run in coverage.verus.rewrite_samples); spans and token spacing are dropped",
     "R13: iter().enumerate().map(F).fold(I,G), iter().filter(P).count() and a filter adaptor consumed once by a quote! repetition mean the index loops they are rewritten to (closures verbatim); laziness of filter is dropped",
     "R16: the bodies of three helper-function quotes of <JoinOutput as ToTokens>::to_tokens (tokio spawn helper, inspect helper, thread-builder helper) are left unspecified (uninterpreted functions of the names they interpolate); only WHETHER and WHERE each is emitted is under contract",
-    "to_tokens / generate_steps are verified under jo_wf (branch_count == depths.len() == branch_pats.len() >= 1, max_step_count >= 1), which JoinOutput::new establishes by construction (branch_count = branches.len() checked non-zero by the guard chain, depths / branch_pats collected from the same branches); the body of `new` as a whole is outside Verus' reach and this link is not machine-checked",
+    "to_tokens / generate_steps / generate_step are verified under jo_wf (field lengths agree, every branch has >= 1 step, chains[b] has depths[b] non-empty steps the parser can produce). The block of JoinOutput::new that fills the fields is PROVED to establish it (new_fields, R15 block lifting) from two facts about its inputs that are not machine-checked end to end: (i) the guard chain in front of it rejects zero branches (new_guards proves the guard expression, the if/else glue is read off the code); (ii) branch_steps_ok for every parsed branch - its depth clause is proved from the builder's contract (lemma_accepted_chain_never_underflows), its per-action clause is proved per parse_stream call but not carried through the builder's loop",
     "machine integers: usize arithmetic in contracted functions is checked for overflow by Verus where it occurs",
 ]
 
